@@ -7,8 +7,17 @@ import (
 	"encoding/json"
 	"fmt"
 	"os"
+	"strconv"
 	"testing"
+	"time"
 )
+
+func zzReplayDeadline() time.Duration {
+	if s, err := strconv.Atoi(os.Getenv("VERIF_REPLAY_DEADLINE_S")); err == nil && s > 0 {
+		return time.Duration(s) * time.Second
+	}
+	return 45 * time.Second
+}
 
 type zzReplayResult struct {
 	Job      string            `json:"job"`
@@ -40,6 +49,18 @@ func zzRunOne(fx *zzFixture) (res zzReplayResult) {
 	if !ok {
 		panic("unknown harness " + fx.Harness)
 	}
+	// watchdog: a harness that does not come back (unbounded loop in the code under test)
+	// ends the process; the driver records the fixture as crashed and resumes after it
+	done := make(chan struct{})
+	go func() {
+		select {
+		case <-done:
+		case <-time.After(zzReplayDeadline()):
+			fmt.Fprintln(os.Stderr, "ZZ-TIMEOUT: fixture did not finish within the deadline:", fx.Job)
+			os.Exit(3)
+		}
+	}()
+	defer close(done)
 	h()
 	return
 }
